@@ -59,7 +59,7 @@ const ruleCommon = "runs are generated from VERIF_SEED (plan tape + schedule tap
 
 var props = []*propSpec{
 	{ID: "C01", Level: "exploration", Clauses: []string{"C01."},
-		Scens:  []scenSpec{{Name: "upload", Weight: 3}, {Name: "read", Weight: 1}},
+		Scens:  []scenSpec{{Name: "upload", Weight: 4}, {Name: "read", Weight: 1}, {Name: "conc", Weight: 1}},
 		QuickS: 45, ThorS: 900, Rule: ruleCommon},
 	{ID: "C03", Level: "exploration", Clauses: []string{"C03."},
 		Scens:  []scenSpec{{Name: "conc", Weight: 3}, {Name: "upload", Weight: 1}, {Name: "backend", Weight: 1}, {Name: "lru", Weight: 1}, {Name: "hardlimit", Weight: 1}, {Name: "hostile", Weight: 1}},
